@@ -624,6 +624,14 @@ func (p *Prog) ruleQuitReply(c *Ctx) {
 					}
 				}
 			}
+			// typed atomics: c.flag.Store(true) / CompareAndSwap / Swap
+			if nm := p.CalleeName(quit, st); strings.HasPrefix(nm, "sync/atomic.") {
+				if se, ok := ast.Unparen(st.Fun).(*ast.SelectorExpr); ok && (se.Sel.Name == "Store" || se.Sel.Name == "Swap" || se.Sel.Name == "CompareAndSwap") {
+					if fv := SelField(qinfo, se.X); fv != nil {
+						flags[fv] = true
+					}
+				}
+			}
 		}
 		return true
 	})
